@@ -4,7 +4,7 @@
    socket accepted, accept schedule k_sched, ghost trace k_trace of every (gather buffer, eof) handed to
    format_output); sent c = bytes on the wire ++ pending_output_; stream f t = the ideal concatenation of
    format_output over a trace; tr c = bytes the device asked the connection to write. *)
-From CppcmsV Require Import Base.Tac Base.CSem C03.Defs C03.Proofs C03.Proofs2 C03.Proofs3 C03.Proofs4 C03.Proofs5 C03.Proofs6 C03.Proofs7 C03.Proofs8 C03.Proofs9 C03.Proofs10 C03.Proofs11 C03.Proofs12 C03.Proofs13 C03.GzipDefs C03.ProofsGzip C03.ProofsHdr C03.Proofs14 C03.ProofsCb C03.ProofsCb2 C03.Link gen.Gen_C03 gen.Gen_C03_fcgi gen.Gen_C03_sock gen.Gen_C03_copybuf.
+From CppcmsV Require Import Base.Tac Base.CSem C03.Defs C03.Proofs C03.Proofs2 C03.Proofs3 C03.Proofs4 C03.Proofs5 C03.Proofs6 C03.Proofs7 C03.Proofs8 C03.Proofs9 C03.Proofs10 C03.Proofs11 C03.Proofs12 C03.Proofs13 C03.GzipDefs C03.ProofsGzip C03.ProofsHdr C03.Proofs14 C03.ProofsCb C03.ProofsCb2 C03.ProofsOvf C03.Link gen.Gen_C03 gen.Gen_C03_fcgi gen.Gen_C03_sock gen.Gen_C03_copybuf gen.Gen_C03_ovf gen.Gen_C03_cmp gen.Gen_C03_lower.
 Local Open Scope N_scope.
 
 (* ------------------------------------------------------------------------------------------------ 1. pending_conservation
@@ -81,6 +81,35 @@ Theorem device_conservation : forall ops async cap c,
   dev_close d2 c2 = (d2, c2).
 Proof. exact device_conservation_lemma. Qed.
 Print Assumptions device_conservation.
+
+(* single-character output: put() -> sputc -> overflow(int c) when the put area is full.  At the level of the C++ signature the
+   argument is traits::to_int_type(ch), an int in 0..255, and sync passes EOF = -1; the code narrows c to a char for the byte it
+   appends but tests the INT against EOF.  For EVERY byte value the int-level transition is the one used by step / run_request
+   (the byte is appended), EOF appends nothing -- hence device_conservation for every interleaving of put / write / flush /
+   setbuf / full_buffering and every byte value.  Testing the narrowed char instead would identify 0xFF with EOF (last conjunct). *)
+Theorem device_put_overflow_every_byte : forall d c x, x < 256 ->
+  dev_sputc_int d c x = dev_sputc d c x /\ dev_overflow_int d c (to_int_type x) = dev_overflow d c (Some x) /\
+  dev_sync_int d c = dev_sync d c /\ ovf_guard EOF_INT = false /\
+  (ovf_guard_char (to_int_type 255) = false /\ ovf_guard (to_int_type 255) = true).
+Proof. exact put_overflow_every_byte. Qed.
+Print Assumptions device_put_overflow_every_byte.
+Theorem device_conservation_every_byte : forall ops async cap c, Forall dop_byte_ok ops ->
+  let d0 := dev_open (new_dev async) cap in
+  let (d1, c1) := drun_int d0 c ops in
+  let (d2, c2) := dev_close d1 c1 in
+  tr c2 = tr c ++ concat (map dbytes ops) /\ d_buf d2 = [] /\
+  (exists k, eofs c2 = eofs c ++ repeat false k ++ [true]) /\
+  dev_close d2 c2 = (d2, c2).
+Proof. exact device_conservation_int_lemma. Qed.
+Print Assumptions device_conservation_every_byte.
+(* non-vacuity: zero-size buffer, the bytes 0xFF 0x00 0xFE 0xFF put one by one, a sync in between: five gather writes *)
+Example device_put_nonvacuous :
+  let c := new_conn Scgi true false 1 [] [] [] [] in
+  let ops := [DSputc 255; DSputc 0; DSync; DSputc 254; DSputc 255] in
+  Forall dop_byte_ok ops /\
+  map fst (k_trace (snd (let (d1, c1) := drun_int (dev_open (new_dev false) 0) c ops in dev_close d1 c1))) =
+    [[[255]]; [[0]]; []; [[254]]; [[255]]; []].
+Proof. split; [repeat constructor|vm_compute; reflexivity]. Qed.
 
 (* regression of the repaired defect (was finding async-full-buffering-setbuf-shrink, /repo commit 00eb9d4): before
    the repair the faithful model of async_io_buf::setbuf + vector::resize put  CR LF 1 0 0 0 5  on the wire for
@@ -198,6 +227,18 @@ Theorem header_map_sorted_unique : forall m k v k2, hsorted m ->
   hsorted (hmap_set m k v) /\ (length (filter (same_name k2) (hmap_set m k v)) <= 1)%nat.
 Proof. exact header_map_sorted_unique_lemma. Qed.
 Print Assumptions header_map_sorted_unique.
+(* the comparator itself (icompare_type: protocol::compare(l, r) < 0, case-insensitive lexicographic WITH the length tie-break) is
+   a strict weak order whose equivalence is exactly case-insensitive equality: irreflexive, transitive, incomparable iff equal
+   ignoring case, total on distinct names -- so distinct names are distinct keys; in particular a name and a longer name it is a
+   prefix of (Content-Security-Policy / Content-Security-Policy-Report-Only) *)
+Theorem header_comparator_strict_weak_order :
+  (forall a, icompare_less a a = false) /\
+  (forall a b c, icompare_less a b = true -> icompare_less b c = true -> icompare_less a c = true) /\
+  (forall a b, icompare_less a b = false /\ icompare_less b a = false <-> lname a = lname b) /\
+  (forall a b, lname a <> lname b -> icompare_less a b = true \/ icompare_less b a = true) /\
+  (forall a s, s <> [] -> icompare_less a (a ++ s) = true /\ icompare_less (a ++ s) a = false).
+Proof. exact comparator_strict_weak_order. Qed.
+Print Assumptions header_comparator_strict_weak_order.
 (* the last value set for a name wins (an empty value erases), names that differ (ignoring case) are untouched *)
 Theorem header_last_value_wins : forall m k v, hsorted m ->
   hmap_get (hmap_set m k v) k = v /\ forall k2, ci_compare k2 k <> Eq -> hmap_get (hmap_set m k v) k2 = hmap_get m k2.
@@ -726,6 +767,25 @@ Print Assumptions tie_copy_buf_getstr.
 Theorem tie_copy_buf_getstr_assign : forall n bsize, g_cb_getstr_off n bsize = 0%Z /\ g_cb_getstr_len n bsize = n.
 Proof. exact link_cb_getstr_assign. Qed.
 Print Assumptions tie_copy_buf_getstr_assign.
+(* overflow(int c) of basic_device and of async_io_buf (full buffering): `char c_tmp = c`, the guard and the byte appended, cut out of
+   the current source: for every byte value the guard holds and the byte is that value; for EOF the guard fails *)
+Theorem tie_overflow_guard : forall b, b < 256 ->
+  g_ovf_guard (to_int_type b) = 1%Z /\ g_ovf_byte (to_int_type b) = Z.of_N (ovf_byte (to_int_type b)) /\ g_aovf_guard (to_int_type b) = 1%Z /\
+  ovf_guard (to_int_type b) = true.
+Proof. exact link_ovf_byte. Qed.
+Print Assumptions tie_overflow_guard.
+Theorem tie_overflow_guard_eof : g_ovf_guard EOF_INT = 0%Z /\ g_aovf_guard EOF_INT = 0%Z /\ ovf_guard EOF_INT = false.
+Proof. exact link_ovf_eof. Qed.
+Print Assumptions tie_overflow_guard_eof.
+(* the comparator of the header map in the current source: ascii_to_lower; one step and the tail (length tie-break) of the loop of
+   protocol::compare; icompare_type::operator() = (compare(l, r) < 0) *)
+Theorem tie_header_comparator :
+  (forall b, b < 128 -> g_ascii_to_lower (Z.of_N b) = Z.of_N (lower b)) /\
+  (forall a b, g_cmp_step (Z.of_N a) (Z.of_N b) = if a <? b then (-1)%Z else if b <? a then 1%Z else 2%Z) /\
+  (forall a b : bytes, (a = [] \/ b = []) -> g_cmp_tail (Z.of_N (lenN a)) (Z.of_N (lenN b)) = compare_int a b) /\
+  (forall a b, (g_icmp_less (compare_int a b) =? 1)%Z = icompare_less a b).
+Proof. exact link_comparator. Qed.
+Print Assumptions tie_header_comparator.
 Theorem tie_socket_max_iovec : g_max_vec_size = Z.of_nat max_vec.
 Proof. exact link_max_vec_size. Qed.
 Print Assumptions tie_socket_max_iovec.
